@@ -28,6 +28,22 @@ Theorem C15_validate_coerces : forall cl t v v',
 Proof. exact validate_coerces. Qed.
 Print Assumptions C15_validate_coerces.
 
+(* conversely, a value that is accepted is the given value up to the documented coercions,
+   unless one of the listed oddities (model/Types.v, `odd`) occurs somewhere in it: a bool
+   where a float is expected (float(True) = 1.0), the serialised dict form where a path is
+   expected, dict keys that become equal once validated (the entries collapse)           *)
+Theorem C15_validate_explained : forall cl t v v',
+  validate cl t v = Ok v' -> coerced cl t v v' \/ odd cl t v.
+Proof. exact validate_explained. Qed.
+Print Assumptions C15_validate_explained.
+
+(* hence a candidate that is not of the type up to the documented coercions - e.g. off by
+   one constructor at any depth - and contains none of the oddities is rejected         *)
+Theorem C15_nonconforming_rejected : forall cl t v,
+  (forall v', ~ coerced cl t v v') -> ~ odd cl t v -> validate cl t v = Err.
+Proof. exact nonconforming_rejected. Qed.
+Print Assumptions C15_nonconforming_rejected.
+
 (* config.k = v either raises and leaves the configuration as it was, or stores a
    value of the declared type (None only for a non-required parameter) under k
    and changes nothing else                                                      *)
@@ -108,16 +124,47 @@ Theorem C15_complete_accepted : forall cl h registry root,
 Proof. exact complete_accepted. Qed.
 Print Assumptions C15_complete_accepted.
 
-(* the same in any state of a session - whichever objects already have their job flag
-   set, e.g. a task whose own submit was rejected and which was then given as a
-   parameter of the task submitted now: submit raises and registers nothing         *)
-Theorem C15_session_missing_rejected : forall cl s root init n m,
+(* submit step by step (job created, validation, registration as separate steps), in any
+   state of a session - whichever objects already have a job - and for both behaviours of
+   a rejected submit (rb = true: the job is dropped again; false: the code as it is):
+   a required value missing below the submitted task makes submit raise, and in NO state
+   the submit goes through has the registry gained anything                             *)
+Theorem C15_session_missing_rejected : forall rb cl s root init n m,
   nth_error (s_heap s) root = Some n ->
   let h' := upd_nth (s_heap s) root (set_init n init) in
   reach objs cl h' root m -> lacks_required cl h' m ->
-  exists s', sess_step cl s (OSubmit root init) = (s', Rejected) /\ s_reg s' = s_reg s.
+  exists tr, submit_trace rb cl s root init = (tr, Rejected) /\
+             Forall (fun s' => s_reg s' = s_reg s) tr.
 Proof. exact session_missing_rejected. Qed.
 Print Assumptions C15_session_missing_rejected.
+
+(* "before any job is registered", derived: whatever the submit, every state it goes
+   through has the registry it started with, or has gained the task - and then the
+   validation of that state answers VOk                                              *)
+Theorem C15_registered_only_after_validation : forall rb cl s root init tr v,
+  submit_trace rb cl s root init = (tr, v) ->
+  Forall (fun s' => s_reg s' = s_reg s \/
+                    (s_reg s' = s_reg s ++ [root] /\ v = Accepted /\
+                     exists vis, cfg_validate cl (s_heap s') root = Some (VOk vis))) tr.
+Proof. exact registered_only_after_validation. Qed.
+Print Assumptions C15_registered_only_after_validation.
+
+(* a complete task that has no job yet is accepted and registered, in any session state *)
+Theorem C15_session_complete_accepted : forall rb cl s root init n,
+  nth_error (s_heap s) root = Some n ->
+  mem root (s_jobs s) = false -> class_task cl (n_cls n) = true ->
+  let h' := upd_nth (s_heap s) root (set_init n init) in
+  (forall m, reach objs cl h' root m -> ~ lacks_required cl h' m) ->
+  exists s', sess_step_gen rb cl s (OSubmit root init) = (s', Accepted) /\ s_reg s' = s_reg s ++ [root].
+Proof. exact session_complete_accepted. Qed.
+Print Assumptions C15_session_complete_accepted.
+
+(* repaired code (fixes/C15-4): a call that raises - a rejected submit in particular -
+   leaves every object, every job flag and the registry as they were                  *)
+Theorem C15_rejected_changes_nothing : forall cl s o s',
+  sess_step cl s o = (s', Rejected) -> s' = s.
+Proof. exact rejected_changes_nothing. Qed.
+Print Assumptions C15_rejected_changes_nothing.
 
 (* the walk with an explicit stack used above is the recursive method: whatever
    the recursive validate() answers (it did not exhaust its recursion budget),
@@ -158,3 +205,26 @@ Theorem C15_none_in_container_refuted : exists cl t v v',
   validate_prefix cl t v = Ok v' /\ ~ has_type cl v' t.
 Proof. exact none_in_container_refuted. Qed.
 Print Assumptions C15_none_in_container_refuted.
+
+(* the code as it is (5d2cab3): a REJECTED submit changes the task - its job stays (nothing
+   is registered): the task is then accepted where a submitted task is required, and once
+   completed it is refused ("already submitted") although its validation passes          *)
+Theorem C15_rejected_submit_leaves_job_refuted : exists cl s root init s',
+  sess_step_prefix cl s (OSubmit root init) = (s', Rejected) /\ s' <> s /\
+  s_reg s' = [] /\
+  snd (sess_step_prefix cl s' (OSet 0 1 (VObj root 0 false))) = Accepted /\
+  snd (sess_step_prefix cl s (OSet 0 1 (VObj root 0 false))) = Rejected /\
+  let s2 := fst (sess_step_prefix cl s' (OSet root 0 (VInt 5))) in
+  snd (sess_step_prefix cl s' (OSet root 0 (VInt 5))) = Accepted /\
+  snd (sess_step_prefix cl s2 (OSubmit root init)) = Rejected /\
+  exists vis, cfg_validate cl (s_heap s2) root = Some (VOk vis).
+Proof. exact rejected_submit_leaves_job_refuted. Qed.
+Print Assumptions C15_rejected_submit_leaves_job_refuted.
+
+(* the code as it is: BoolType.validate is bool(value) for any value - a list, a string, a
+   float given to a Param[bool] is silently stored as True/False                          *)
+Theorem C15_bool_accepts_anything_refuted : exists cl v v',
+  validate_prefix cl TBool v = Ok v' /\ ~ coerced cl TBool v v' /\ ~ odd cl TBool v /\
+  validate_prefix cl TBool (VStr "no") = Ok (VBool true).
+Proof. exact bool_accepts_anything_refuted. Qed.
+Print Assumptions C15_bool_accepts_anything_refuted.
